@@ -744,6 +744,42 @@ def rule_context_reduction_certificate(ctx: Ctx, rule: str = "context-reduction-
     ctx.floor("context-reduction returning sign patterns", n_ret, 8)
 
 
+def rule_kaykobad_selection(ctx: Ctx, rule: str = "kaykobad-selection") -> None:
+    """C15: the row selection of tactic 1 refuses a selection as an 'empty transformation' only when NO
+    selected row brings in a variable from outside the eliminated ones (and the term has none either).  Refusing more
+    is sound but loses what only tactic 1 can derive: composition cross-simplifies the operands' guarantees first, and
+    an interface-level guarantee removed there as redundant comes back only through this substitution.  Decided by
+    running the selection on two-row systems in which exactly one row has an outside variable - first or last."""
+    prog = ctx.prog
+    key = "PolyhedralTermList._get_kaykobad_context"
+    fi = prog.func(key)
+    y1, y2, w = Key("y1"), Key("y2"), Key("w")
+
+    def term(d, c):
+        return Rec(PT, {"variables": DictV({k: num(v) for k, v in d.items()}), "constant": num(c)})
+
+    cases = [
+        ("the first selected row has the outside variable", [({y1: 1, w: 1}, 2), ({y2: 1}, 3)]),
+        ("the last selected row has the outside variable", [({y1: 1}, 2), ({y2: 1, w: 1}, 3)]),
+    ]
+    for label, rows in cases:
+        def thunk(rows=rows):
+            ta = TermAlg(prog)
+            T = term({y1: -1, y2: -1}, 0)
+            context = Rec("PolyhedralTermList", {"terms": ListV([term(d, c) for d, c in rows])})
+            try:
+                r = ta.call(fi, [T, context, ListV([y1, y2]), False])
+            except Raised as ex:
+                if ex.cls == "ValueError":
+                    return "the selection y1 + ... , y2 + ... for the term -y1 - y2 <= 0 is refused (ValueError) although one of its rows mentions w"
+                raise
+            if not isinstance(r, TupV) or len(r.items) != 2 or not isinstance(r.items[0], ListV) or len(r.items[0].items) != 2:
+                return "the selection does not come back as (two rows, forbidden variables)"
+            return None
+
+        _run(ctx, rule, key, "_get_kaykobad_context: a selection is not refused as empty when %s" % label, thunk)
+
+
 # ---------------------------------------------------------------------------
 # Tactic 3 (change of variables before tactic 1)
 # ---------------------------------------------------------------------------
@@ -758,7 +794,7 @@ def rule_tactic3_change_of_variables(ctx: Ctx, rule: str = "tactic3-substitution
     fi = prog.func(key)
     x, y, z, w, aux = Key("x"), Key("y"), Key("z"), Key("w"), Key("_")
 
-    def scenario(refine: bool):
+    def scenario(refine: bool, concrete=None):
         seen = {}
 
         def stub(ta_, pos, kw):
@@ -767,6 +803,12 @@ def rule_tactic3_change_of_variables(ctx: Ctx, rule: str = "tactic3-substitution
 
         ta = TermAlg(prog, stubs={"PolyhedralTermList._tactic_1": stub})
         T = ta.term([x, y, z], "a")
+        if concrete is not None:
+            # the coefficients of the eliminated variables as numbers (a choice among them - the largest, the first
+            # non-unit one - can then be followed); everything else stays symbolic
+            T.f["variables"].d[x] = num(concrete[0])
+            T.f["variables"].d[y] = num(concrete[1])
+        a_x, a_y = T.f["variables"].d[x], T.f["variables"].d[y]
         R1 = ta.term([x, y, w], "b")
         R2 = ta.term([y, w], "e")
         R3 = ta.term([x], "g")
@@ -785,8 +827,8 @@ def rule_tactic3_change_of_variables(ctx: Ctx, rule: str = "tactic3-substitution
             nc = coefs(new)
             k_aux = nc.get("_", num(0))
             back = {n_: v_ for n_, v_ in nc.items() if n_ != "_"}
-            back["x"] = back.get("x", num(0)) + k_aux * sym("a_x")
-            back["y"] = back.get("y", num(0)) + k_aux * sym("a_y")
+            back["x"] = back.get("x", num(0)) + k_aux * a_x
+            back["y"] = back.get("y", num(0)) + k_aux * a_y
             oc = coefs(orig)
             for n_ in sorted(set(back) | set(oc)):
                 if not _eq(back.get(n_, num(0)), oc.get(n_, num(0))):
@@ -794,14 +836,21 @@ def rule_tactic3_change_of_variables(ctx: Ctx, rule: str = "tactic3-substitution
             if not _eq(new.f["constant"], orig.f["constant"]):
                 return "context row %s: the bound changes from %s to %s" % (name, orig.f["constant"].show(), new.f["constant"].show())
         el = sorted(k_.name for k_ in new_elims.items) if isinstance(new_elims, ListV) else None
-        if el != ["_", "y"]:
-            return "the variables handed to tactic 1 are %s, expected the eliminated ones with x replaced by _" % el
+        if el not in (["_", "y"], ["_", "x"]):
+            return "the variables handed to tactic 1 are %s, expected the eliminated ones with one of them replaced by _" % el
+        gone = "x" if el == ["_", "y"] else "y"
+        if any(gone in coefs(r_) for r_ in rows):
+            return "%s is replaced by _ but a rewritten context row still mentions it" % gone
         if seen["args"][3] is not refine:
             return "the direction handed to tactic 1 is %r" % (seen["args"][3],)
         return None
 
     for refine in (True, False):
         _run(ctx, rule, key, "_tactic_3 (%s): the change of variables handed to tactic 1 is exact" % ("refine" if refine else "relax"), lambda refine=refine: scenario(refine))
+    # with numbers for the two eliminated coefficients, the larger one second / first (a pivot chosen by size)
+    for refine in (True, False):
+        for ab in ((1, 2), (3, -1), (-2, 5)):
+            _run(ctx, rule, key, "_tactic_3 (%s, eliminated coefficients %s and %s): the change of variables handed to tactic 1 is exact" % ("refine" if refine else "relax", ab[0], ab[1]), lambda refine=refine, ab=ab: scenario(refine, ab))
 
 
 def rule_kernels_exact(ctx: Ctx, rule: str = "kernel-exact") -> None:
